@@ -125,12 +125,15 @@ def rand_script(rng, maxslots=3):
 LUA_PRELUDE = r"""
 local S, TBC = SCRIPT, TBCFLAG
 local pc, nid, slot, kind, h, w = 0, -1, {}, {}, {}, {}
-local mt = {__close = function(o, e) emit("C", o.id, e) end}
+local mt = {__close = function(o, e)
+  emit("C", o.id, e)
+  if TBC == 2 or (TBC == 3 and o.id % 2 == 1) then error(2000 + o.id, 0) end   -- the handler fails
+end}
 local run
 local function body(id)
   return function(...)
     h[id] = coroutine.running()
-    local x <close> = TBC and setmetatable({id = id}, mt) or nil
+    local x <close> = TBC ~= 0 and setmetatable({id = id}, mt) or nil
     emit("S", id, ...)
     return run()
   end
@@ -196,7 +199,7 @@ def render_lua(toks, tbc):
             op, slot = head[0], head[1:]
         items = ['"%s"' % op, slot] + [lua_val(v) for v in vals]
         ents.append("{%s, n=%d}" % (", ".join(items), 2 + len(vals)))
-    src = LUA_PRELUDE.replace("SCRIPT", "{" + ",".join(ents) + "}").replace("TBCFLAG", "true" if tbc else "false")
+    src = LUA_PRELUDE.replace("SCRIPT", "{" + ",".join(ents) + "}").replace("TBCFLAG", str(int(tbc)))
     return src
 
 
@@ -499,7 +502,7 @@ def build_trace_binary(ck):
     open(os.path.join(d, "verif_trace_overlay.go"), "w").write(TRACE_GO)
     ov = {"Replace": {os.path.join(vlib.REPO, "runtime", "thread.go"): os.path.join(d, "thread.go"),
                       os.path.join(vlib.REPO, "runtime", "verif_trace_overlay.go"): os.path.join(d, "verif_trace_overlay.go")}}
-    extra = os.environ.get("VERIF_C09_OVERLAY")   # mutation experiments: an extra overlay to merge
+    extra = os.environ.get("VERIF_C09_OVERLAY") or os.environ.get("VERIF_OVERLAY")   # mutation / seeded-change runs: overlay to merge (its thread.go is instrumented too)
     if extra:
         ex = json.load(open(extra))["Replace"]
         for k, v in ex.items():
@@ -584,6 +587,11 @@ def load_specials():
     return out
 
 
+# to-be-closed mode of a script: 0 none, 1 handler records its call, 2 ... and raises its own error,
+# 3 only handlers of odd-numbered coroutines raise (so that failing and succeeding handlers meet)
+TBC_CYCLE = [1, 2, 0, 3, 2, 1, 3]
+
+
 def hexsrc(s):
     return s.encode().hex()
 
@@ -661,13 +669,17 @@ def run(tier, seed):
                     l = l.strip()
                     if l and not l.startswith("#"):
                         tbc, _, sc = l.partition(" ")
-                        scripts.append((sc.split(";"), tbc == "1"))
+                        scripts.append((sc.split(";"), int(tbc)))
                         ncorpus += 1
     depth_full = 4 if tier == "quick" else 5
     full = list(enum_scripts(depth_full))
     for i, sc in enumerate(full):
-        scripts.append((sc, i % 2 == 0))
-    nfull = len(full)
+        if len(sc) <= 3:
+            for md in (0, 1, 2, 3):      # short scripts: every to-be-closed mode
+                scripts.append((sc, md))
+        else:
+            scripts.append((sc, TBC_CYCLE[i % len(TBC_CYCLE)]))
+    nfull = len(scripts) - ncorpus
     # deterministic slice of the next depth(s)
     nslice = 0
     stride = 151 if tier == "quick" else 29
@@ -675,14 +687,14 @@ def run(tier, seed):
     for i, sc in enumerate(enum_scripts(depth_full + 1, only_len=depth_full + 1)):
         ndeeper += 1
         if i % stride == 0:
-            scripts.append((sc, i % 2 == 1))
+            scripts.append((sc, TBC_CYCLE[(i + 1) % len(TBC_CYCLE)]))
             nslice += 1
     nrand = 800 if tier == "quick" else 60000
     for i in range(nrand):
-        scripts.append((rand_script(ck.rng), i % 3 != 0))
+        scripts.append((rand_script(ck.rng), TBC_CYCLE[i % len(TBC_CYCLE)]))
     ck.log("scripts: corpus %d, all of depth<=%d: %d, slice of depth %d: %d (of %d), random %d" % (
         ncorpus, depth_full, nfull, depth_full + 1, nslice, ndeeper, nrand))
-    mlines = ["s%d S %d 3 %s" % (i, 1 if tbc else 0, ";".join(sc)) for i, (sc, tbc) in enumerate(scripts)]
+    mlines = ["s%d S %d 3 %s" % (i, int(tbc), ";".join(sc)) for i, (sc, tbc) in enumerate(scripts)]
     rc2, model, e2 = vlib.run_lines(oracle, [], mlines, timeout=1800)
     if rc2 != 0 or len(model) != len(mlines):
         ck.violation("oracle crashed (%d/%d lines): %s" % (len(model), len(mlines), e2[-300:]), {"kind": "oracle-crash", "stderr": e2[-2000:]}, no_input=True)
@@ -712,7 +724,8 @@ def run(tier, seed):
         ck.count("len:%d" % min(len(sc), 12))
         ck.count("model-outcome:" + m[0])
         nev = 0 if m[1] == "-" else m[1].count(";") + 1
-        ck.case(("1 " if tbc else "0 ") + ";".join(sc), nontrivial=nev >= 2)
+        ck.case("%d " % int(tbc) + ";".join(sc), nontrivial=nev >= 2)
+        ck.count("tbc-mode:%d" % int(tbc))
         if g is None:
             ndiff += 1
             if ndiff <= 3:
@@ -887,7 +900,7 @@ def run(tier, seed):
 
 
 def run_one(sc, tbc, gvt, oracle):
-    _, mo, _ = vlib.run_lines(oracle, [], ["x S %d 3 %s" % (1 if tbc else 0, ";".join(sc))], timeout=60)
+    _, mo, _ = vlib.run_lines(oracle, [], ["x S %d 3 %s" % (int(tbc), ";".join(sc))], timeout=60)
     m = norm_model(mo[0])
     go = vlib.run_lines_resilient(gvt, ["script"], ["x %s exp=%s" % (hexsrc(render_lua(sc, tbc)), m[3])], per_case_timeout=15)
     g = norm_go(go[0])
@@ -919,7 +932,7 @@ def replay(path, seed):
     oracle = ck.build_oracle("thread")
     if "script" in r and r.get("script"):
         sc = r["script"].split(";")
-        g, m, go, mo = run_one(sc, bool(r.get("tbc")), gvt, oracle)
+        g, m, go, mo = run_one(sc, int(r.get("tbc") or 0), gvt, oracle)
         print("impl :", go)
         print("model:", mo)
         print("same :", g is not None and (g[0], g[1], g[2], g[3]) == m)
